@@ -3,6 +3,8 @@
    Models: Model/C06Cases.v (versions, MVCC snapshot, sequential write model over arbitrary histories of
    successful and failed writes, event replay, compaction rule) and the producer of Model/WatchSys.v. *)
 From KB Require Import Base.Cases Model.WatchSys Model.C06Cases Proofs.WatchSys Proofs.C06.
+From KB Require Model.RetrySys Model.C06Faults Proofs.RetryInv2 Proofs.RetryProps Proofs.RetryInvX Proofs.RetryWitness Proofs.C09Cases Proofs.C06Faults Model.RetryCompact Proofs.RetryCompact Proofs.RetryCompactThms.
+From KB Require Model.KeySys Proofs.C06KeySysBridge.
 Local Open Scope N_scope.
 
 (* In every reachable state of the watch system — all label lists, all parameters — whose sequencer is fed from
@@ -25,7 +27,10 @@ Theorem C06_events_are_versions_exec : forall pa l c0 h ls,
 Proof. exact events_are_versions_exec. Qed.
 Print Assumptions C06_events_are_versions_exec.
 
-(* a delete event carries the value and the modification revision it superseded *)
+(* a delete event carries the value and the modification revision it superseded. NOTE: in the sequential write model
+   this restates the WDelete branch of exec_one (the slot is built from `live V k top` there); it documents the
+   model, it is not a statement about the implementation. The tie to the code is delete_slots_ok inside c06_check:
+   every delete slot the implementation resolved must carry the value/revision the history of successful writes gives *)
 Theorem C06_delete_carries_prev : forall V r a,
   let '(we, _) := exec_one V r a in
   we_valid we = true -> we_verb we = VDelete -> live V (we_key we) top = Some (we_val we, we_prev we).
@@ -73,6 +78,49 @@ Theorem C06_oracle_sound : forall c, c06_valid c -> c06_check c = true -> c06_or
 Proof. exact c06_oracle_sound. Qed.
 Print Assumptions C06_oracle_sound.
 
+(* validity is decidable and evaluated on every list-then-watch case: c06_check includes c06_validb *)
+Theorem C06_validb_valid : forall c, c06_validb c = true -> c06_valid c.
+Proof. exact c06_validb_valid. Qed.
+Print Assumptions C06_validb_valid.
+
+(* hence for every list-then-watch case kind the driver emits as KLw — plain and hooked runs, several concurrent
+   clients on different prefixes, mixed-prefix batches with a lagging consumer, the partitioned (streamed) client
+   path with refused reads re-listed, a partition border on a version record with partitioned and limited reads —
+   a passed check implies the property, with no hypothesis left *)
+Theorem C06_check_sound : forall P slots R0 kv0 wok evs lists,
+  c06_check (KLw P slots R0 kv0 wok evs lists) = true -> c06_oracle (KLw P slots R0 kv0 wok evs lists) = None.
+Proof. exact c06_check_sound. Qed.
+Print Assumptions C06_check_sound.
+
+(* the composed statement. The watch system — every interleaving of sequencer, hub, watch registration,
+   processEvents and client, all capacities — fed with the slots of an arbitrary history of successful and failed
+   writes: a watcher started at R+1 on prefix P whose stream is open and settled has received exactly the events that
+   turn the range result at R into the range result at every R' with R <= R' <= committed.
+   [C05_complete + C06_events_are_versions + C06_replay; outside: C03 (List at R is snapshot V R) and C07 (the real
+   compactor obeys compaction_rule, which C06_compaction_preserves_snapshot shows harmless).] *)
+Theorem C06_list_then_watch : forall pa l c0 h ls i w R R', 0 < l ->
+  (forall we, In (LSeqTake we) ls -> In we (fst (exec c0 h))) ->
+  let s := run pa ls (init l c0) in
+  nth_error (s_ws s) i = Some w -> settled s w -> w_S w = R + 1 ->
+  R <= R' -> R' <= s_committed s ->
+  apply_events (filter (fun e => e_rev e <=? R') (concat (w_got w))) (in_prefix (w_P w) (snapshot (snd (exec c0 h)) R))
+  = in_prefix (w_P w) (snapshot (snd (exec c0 h)) R').
+Proof. exact list_then_watch. Qed.
+Print Assumptions C06_list_then_watch.
+
+(* the composed statement for any resolved slot sequence numbered c0+1, c0+2, ... — concurrent writers included (the slot
+   of revision r is what the writer that was dealt r reported, in whatever order the writers finished); the range
+   results are the MVCC snapshots of the versions those slots stored *)
+Theorem C06_list_then_watch_slots : forall pa l c0 slots ls i w R R', 0 < l -> numbered c0 slots ->
+  (forall we, In (LSeqTake we) ls -> In we slots) ->
+  let s := run pa ls (init l c0) in
+  nth_error (s_ws s) i = Some w -> settled s w -> w_S w = R + 1 ->
+  R <= R' -> R' <= s_committed s ->
+  apply_events (filter (fun e => e_rev e <=? R') (concat (w_got w))) (in_prefix (w_P w) (snapshot (versions_of slots) R))
+  = in_prefix (w_P w) (snapshot (versions_of slots) R').
+Proof. exact list_then_watch_slots. Qed.
+Print Assumptions C06_list_then_watch_slots.
+
 (* ---------- non-vacuity ---------- *)
 
 Definition k1 : bytes := [47; 97; 47; 120].   (* "/a/x" *)
@@ -114,4 +162,164 @@ Example C06_producer_inhabited :
   let ls := flat_map (fun we => [LSeqTake we; LSeqCache; LSeqSend; LHubItem []]) slots in
   let s := run real_params ls (init 3 100) in
   s_committed s = 107 /\ map e_rev (s_cached s) = [101; 103; 104; 106; 107].
+Proof. vm_compute. repeat split. Qed.
+
+(* C06_check_sound on a concrete case of the "border on a version record" kind: K = /a/x created at 101, updated at
+   103 (the advertised border), listed at 104, deleted at 106; the partitioned and the limited read at 107 agree with
+   the replay. The same case with the key resurfacing in the limited read (what the two-pass border adjustment did)
+   fails both the check and the oracle. *)
+Example C06_check_sound_inhabited :
+  let slots := fst (exec 100 h6) in
+  let evs := filter (in_window 104 top [47; 97]) (events_of slots) in
+  let good := KLw [47; 97] slots 104 [(k1, ([3], 103))] true evs [(107, [(k1, ([7], 107))]); (106, [])] in
+  let bad := KLw [47; 97] slots 104 [(k1, ([3], 103))] true evs [(106, [(k1, ([1], 101))])] in
+  c06_validb good = true /\ c06_check good = true /\ c06_oracle good = None /\
+  c06_check bad = false /\ c06_oracle bad = Some 0.
+Proof. vm_compute. repeat split. Qed.
+
+(* C06_list_then_watch is not vacuous: history h6 through the watch system with a watcher on "/a" started at 104
+   (R = 103) after the first three slots were cached; at the end its stream is open and settled, committed = 107, and
+   replaying what it received over the list at 103 gives the lists at 106 and 107 *)
+Example C06_list_then_watch_inhabited :
+  let slots := fst (exec 100 h6) in
+  let feed := fun we => [LSeqTake we; LSeqCache; LSeqSend; LHubItem []] in
+  let ls := flat_map feed (firstn 3 slots) ++ [LWatchSub 104 [47; 97]; LWatchRead 0; LWatchSpawn 0] ++
+            flat_map feed (skipn 3 slots) ++ [LProc 0; LProc 0; LConsume 0; LProc 0; LProc 0; LConsume 0; LProc 0; LProc 0; LConsume 0] in
+  let s := run real_params ls (init 3 100) in
+  (forall we, In (LSeqTake we) ls -> In we slots) /\
+  match nth_error (s_ws s) 0 with
+  | Some w => w_S w = 103 + 1 /\ s_committed s = 107 /\ map e_rev (concat (w_got w)) = [106; 107] /\
+              s_cur s = None /\ s_pending s = [] /\ s_wchan s = [] /\ w_phase w = PhRun /\
+              c_buf (w_sub w) = [] /\ c_closed (w_sub w) = false /\ w_hold w = None /\
+              c_buf (w_out w) = [] /\ c_closed (w_out w) = false /\
+              apply_events (filter (fun e => e_rev e <=? 106) (concat (w_got w))) (in_prefix [47; 97] (snapshot (snd (exec 100 h6)) 103)) = [] /\
+              apply_events (filter (fun e => e_rev e <=? 107) (concat (w_got w))) (in_prefix [47; 97] (snapshot (snd (exec 100 h6)) 103)) = [(k1, ([7], 107))]
+  | None => False
+  end.
+Proof.
+  split.
+  - intros we H. vm_compute in H. vm_compute. repeat (destruct H as [H|H]; [inversion H; subst; auto 10|]). destruct H.
+  - vm_compute. repeat split.
+Qed.
+
+(* ---------- the bridge to the concurrent write model (Model/KeySys.v, package D; imported read-only) ----------
+   C06_events_are_versions speaks about the slots the sequencer takes; C06_replay_slots about events and versions as two
+   projections of one resolved slot sequence. What ties a slot reported VALID to a version that was really STORED, for
+   concurrent writers, is this statement over KeySys' ghost log — every reachable state, any interleaving of client
+   threads (create / update / delete / the retry loop's rewrite), engine outcomes and sequencer:
+     a valid notification (ENotified t rev true: the slot of revision rev is filled with Valid = true) has an applied
+     commit of the same thread at the same revision (EApplied t _ k _ rev _ _ _: index record and version record rev
+     written) — no event without a version; and an applied commit has its valid notification, or its thread is the
+     write in flight at notify(k, rev, ok) — no version without an event.
+   Not stated here: that key, verb and value of the slot equal those of the applied commit (KeySys' slots carry only
+   revision and validity; key/value/verb are checked per case: kv0 / lists / delete_slots_ok in c06_check). *)
+Theorem C06_events_iff_applied : forall cidx0 ls d0 store,
+  let s := KeySys.krun cidx0 ls (KeySys.kinit d0 store) in
+  (forall t rev, In (KeySys.ENotified t rev true) (KeySys.log s) -> exists k, C06KeySysBridge.applied_in (KeySys.log s) t k rev) /\
+  (forall t q k a rev f v p, In (KeySys.EApplied t q k a rev f v p) (KeySys.log s) ->
+     In (KeySys.ENotified t rev true) (KeySys.log s) \/ exists w old, KeySys.thr s t = KeySys.PNotify w k rev KeySys.ROk old).
+Proof. exact C06KeySysBridge.events_iff_applied. Qed.
+Print Assumptions C06_events_iff_applied.
+
+(* a create through KeySys: after the commit the write is in flight at notify(5, 11, ok) with its EApplied logged and no
+   notification yet; after notify both entries are in the log *)
+Example C06_events_iff_applied_inhabited :
+  let st0 := KeySys.kinit 10 (fun _ => KeySys.k_empty) in
+  let lbs := [KeySys.LInvoke 1 (KeySys.RqCreate 5 [1]); KeySys.LDeal 1; KeySys.LEngine 1 KeySys.EnvOk; KeySys.LNotify 1] in
+  KeySys.thr (KeySys.krun true (firstn 3 lbs) st0) 1 = KeySys.PNotify KeySys.WCreate 5 11 KeySys.ROk ([], 0) /\
+  In (KeySys.EApplied 1 (Some (KeySys.RqCreate 5 [1])) 5 KeySys.ACreate 11 false [1] None) (KeySys.log (KeySys.krun true (firstn 3 lbs) st0)) /\
+  ~ In (KeySys.ENotified 1 11 true) (KeySys.log (KeySys.krun true (firstn 3 lbs) st0)) /\
+  In (KeySys.ENotified 1 11 true) (KeySys.log (KeySys.krun true lbs st0)).
+Proof.
+  vm_compute. repeat split; auto. intros [H|[H|[H|[]]]]; discriminate H.
+Qed.
+
+(* ---------- fault cases (KLf): the oracle's statement is a theorem about the retry system (Model/RetrySys.v) ----------
+   KLf cases are evaluated by the oracle only (c06_check = true on them): the writes as resolved are not known from the
+   responses.  What the model of unknown outcomes predicts for them: take ANY run of RetrySys (any interleaving of client
+   requests, sequencer, retry loop, compactions' cap; unknown outcomes applied or not on any commit incl. the creator's
+   second commit and the repair commit; definite failures), a range read served in any reachable state s0, a later
+   quiescent state s (retry queue drained, nothing in flight), any later state sF (the watch may have delivered more).
+   Read off as a KLf case through an injective key encoding (Model/C06Faults.v klf_of: first range read at the committed
+   revision of s0, the watch's events above it under P up to sF, final range read at the committed revision of s),
+   c06_oracle accepts: the stream is strictly increasing above R0 within P, and replaying the events up to Rf over the
+   first range result gives the final one.   [<- C09_converges (converges_core), Proofs/C06Faults.v]
+   ks: the model keys the range reads cover; every other key has no version or lies outside P.
+   Not covered by this statement: the deletions a compaction performs inside the retry window (RetrySys computes
+   Backend.Compact's capped revision only: C09_compact_capped; that removing versions at or below a floor <= R0 changes no
+   read at R >= floor is C06_compaction_preserves_snapshot) and the watch pipeline after the sequencer (C05). *)
+Theorem C06_fault_cases_converge : forall enc, (forall a b : RetrySys.key, enc a = enc b -> a = b) ->
+  forall q ks P s0 s sF,
+  RetryProps.reach q s0 -> Proofs.C09Cases.leads s0 s -> RetryInvX.quiescent s -> Proofs.C09Cases.leads s sF ->
+  (forall k, ~ In k ks -> RetryInv2.vers s k = [] \/ has_prefix P (enc k) = false) ->
+  c06_oracle (Model.C06Faults.klf_of enc ks P s0 s sF) = None.
+Proof. exact Proofs.C06Faults.klf_converges. Qed.
+Print Assumptions C06_fault_cases_converge.
+
+Theorem C06_fault_cases_converge_run : forall enc r0 ks P ls0 ls1 lsF,
+  (forall a b : RetrySys.key, enc a = enc b -> a = b) ->
+  Forall RetryInv2.wf_label ls0 -> Forall RetryInv2.wf_label ls1 -> Forall RetryInv2.wf_label lsF ->
+  let s0 := RetrySys.run (RetrySys.init_state r0) ls0 in let s := RetrySys.run s0 ls1 in let sF := RetrySys.run s lsF in
+  RetrySys.quiescentb s = true ->
+  (forall k, ~ In k ks -> RetryInv2.vers s k = [] \/ has_prefix P (enc k) = false) ->
+  c06_oracle (Model.C06Faults.klf_of enc ks P s0 s sF) = None.
+Proof. exact Proofs.C06Faults.klf_converges_run. Qed.
+Print Assumptions C06_fault_cases_converge_run.
+
+Example C06_fault_cases_inhabited :
+  c06_oracle (Model.C06Faults.klf_of Model.C06Faults.enc_ex [0; 1; 2; 3] Model.C06Faults.prefix_ex
+                Proofs.C06Faults.ex_s0 Proofs.C06Faults.ex_s Proofs.C06Faults.ex_s) = None /\
+  match Model.C06Faults.klf_of Model.C06Faults.enc_ex [0; 1; 2; 3] Model.C06Faults.prefix_ex
+          Proofs.C06Faults.ex_s0 Proofs.C06Faults.ex_s Proofs.C06Faults.ex_s with
+  | KLf _ R0 kv0 evs Rf kvf =>
+      R0 = 12 /\ length kv0 = 2%nat /\ map e_rev evs = [17; 18] /\ Rf = 18 /\ kvf = [([47; 114; 47; 97], (RetryWitness.v2, 18))] /\
+      RetrySys.s_dealt Proofs.C06Faults.ex_s0 = 14
+  | _ => False
+  end.
+Proof. exact Proofs.C06Faults.klf_example. Qed.
+
+(* the same with the deletions of compactions interleaved anywhere — also inside the retry window (Model/RetryCompact.v:
+   XDel k r R removes version record (k, r) under C07_safe_remove's premise at a revision R that Backend.Compact may use,
+   i.e. at most the committed revision and below every queued revision: C09_compact_capped).  p0: where the first range
+   read is served; p: a later quiescent state; pF: any later state.  ks enumerates the model keys under P. *)
+Theorem C06_fault_cases_converge_compaction : forall enc r0 ks P xs0 xs1 xsF,
+  (forall a b : RetrySys.key, enc a = enc b -> a = b) ->
+  let p0 := RetryCompact.xrun (RetrySys.init_state r0) xs0 in let p := RetryCompact.xrun p0 xs1 in let pF := RetryCompact.xrun p xsF in
+  Proofs.RetryCompact.xwf_all (RetrySys.init_state r0) xs0 -> Proofs.RetryCompact.xwf_all p0 xs1 -> Proofs.RetryCompact.xwf_all p xsF ->
+  RetrySys.quiescentb p = true ->
+  (forall k, ~ In k ks -> has_prefix P (enc k) = false) ->
+  c06_oracle (Model.C06Faults.klf_of enc ks P p0 p pF) = None.
+Proof. exact RetryCompactThms.xklf_converges. Qed.
+Print Assumptions C06_fault_cases_converge_compaction.
+
+(* the hypotheses of C06_compaction_preserves_reads / _snapshot on the compaction of C06_compaction_inhabited *)
+Example C06_compaction_hypotheses_inhabited :
+  let V := snd (exec 100 h6) in
+  let keep := fun x : version => negb ((v_rev x =? 101) || (v_rev x =? 103) || (v_rev x =? 106)) in
+  newest_first V /\ compaction_rule V 106 keep /\ 106 <= 107.
+Proof.
+  split; [apply newest_firstb_ok; vm_compute; reflexivity|]. split; [apply compaction_ruleb_ok; vm_compute; reflexivity|].
+  vm_compute. discriminate.
+Qed.
+
+(* `numbered` and `sorted (events_of slots)` on a slot sequence that is NOT produced by the sequential write model:
+   two writers finished out of order (revision 12 resolved before 11 finished, one write failed), slots listed by
+   revision; C06_replay_slots and C06_list_then_watch_slots apply to it *)
+Definition conc_slots : list wevent :=
+  [mkWe 11 0 true VCreate k1 [1]; mkWe 12 0 true VCreate k2 [2]; mkWe 13 11 false VPut k1 [9]; mkWe 14 12 true VDelete k2 [2]].
+Example C06_numbered_inhabited :
+  numbered 10 conc_slots /\ sorted (events_of conc_slots) /\
+  apply_events (filter (in_window 11 14 []) (events_of conc_slots)) (in_prefix [] (snapshot (versions_of conc_slots) 11))
+  = in_prefix [] (snapshot (versions_of conc_slots) 14).
+Proof.
+  split; [apply numberedb_ok; vm_compute; reflexivity|]. split; [apply ev_sortedb_sorted; vm_compute; reflexivity|].
+  vm_compute. reflexivity.
+Qed.
+
+(* a fault case as the driver emits it passes the structural check c06_check evaluates on KLf cases (klf_wf); a final
+   range result out of key order does not *)
+Example C06_klf_check_inhabited :
+  c06_check (KLf [47; 97] 104 [(k1, ([3], 103))] [mkEv VDelete 106 k1 [3] 103] 107 []) = true /\
+  c06_oracle (KLf [47; 97] 104 [(k1, ([3], 103))] [mkEv VDelete 106 k1 [3] 103] 107 []) = None /\
+  c06_check (KLf [47] 104 [] [] 107 [(k2, ([4], 104)); (k1, ([3], 103))]) = false.
 Proof. vm_compute. repeat split. Qed.
